@@ -635,11 +635,18 @@ func (st *Stack) compactRange(first, last int, expiration *LogExpirationConfig) 
 		return false, err
 	}
 
-	lockFileName = st.listFile + ".lock"
-	lockFile, err = os.OpenFile(lockFileName, os.O_EXCL|os.O_CREATE|os.O_WRONLY, 0644)
+	lockFile, err = os.OpenFile(st.listFile+".lock", os.O_EXCL|os.O_CREATE|os.O_WRONLY, 0644)
 	if err != nil {
+		if !emptyTable {
+			os.Remove(tmpTable)
+		}
+		if os.IsExist(err) {
+			// Somebody else holds the lock; it is theirs to remove.
+			return false, nil
+		}
 		return false, err
 	}
+	lockFileName = st.listFile + ".lock"
 
 	defer lockFile.Close()
 
